@@ -36,6 +36,8 @@ type MultiRun struct {
 
 	envIdleAt, gcIdleAt int
 	releaseAt           []int
+	// AfterAction, if set, runs on the scheduler goroutine after every scheduler action (monitors of process-wide state).
+	AfterAction func()
 	// Tail is the list of the last scheduler choices (diagnostics for runs that do not end).
 	Tail          []string
 	tailMu        sync.Mutex
@@ -55,7 +57,13 @@ func (m *MultiRun) note(f string, a ...interface{}) {
 func NewMultiRun(ss []*Scenario, repoDir string, seed int64, concurrent bool) (*MultiRun, error) {
 	ResetProcessGlobals()
 	validating.PartitionReplicasLimitWithTraffic = 50
-	w, err := NewWorld(Options{RepoDir: repoDir, GraceSeconds: 0, Concurrent: concurrent})
+	var g int32
+	for _, s := range ss {
+		if s.Grace > g {
+			g = s.Grace
+		}
+	}
+	w, err := NewWorld(Options{RepoDir: repoDir, GraceSeconds: g, Concurrent: concurrent})
 	if err != nil {
 		return nil, err
 	}
@@ -195,6 +203,9 @@ func (m *MultiRun) step() bool {
 			m.note("user %s/%s %s", ch.run.S.NS, ch.run.S.Name, a)
 			ch.run.userQueue = ch.run.userQueue[1:]
 			ch.run.doUser(a)
+		}
+		if m.AfterAction != nil {
+			m.AfterAction()
 		}
 		return true
 	}
